@@ -237,6 +237,28 @@ func (e *Engine) VerifyFunc(key string) {
 		st.assume(e.evalBool(env, rq.E))
 	}
 	entryVars := env.vars
+	// pointees of pointer parameters at entry (cell contents are immutable values: updates replace them)
+	type heapSnap struct {
+		name string
+		cell *Cell
+		val  Val
+	}
+	var heapIn []heapSnap
+	for i, p := range fn.Params {
+		pv, ok := args[i].(*PtrV)
+		if !ok || pv.C == nil || len(pv.Path) != 0 {
+			continue
+		}
+		pn := p.Name()
+		if i >= off {
+			pn = fc.Params[i-off]
+		} else {
+			pn = "self"
+		}
+		if fc.Dyn["mutates:"+pn] == "" {
+			heapIn = append(heapIn, heapSnap{pn, pv.C, st.heap[pv.C.ID]})
+		}
+	}
 	npaths := 0
 	e.run(st, 1, func(o *Outcome) {
 		npaths++
@@ -276,6 +298,33 @@ func (e *Engine) VerifyFunc(key string) {
 			}()
 			for _, ld := range fc.PostLets {
 				penv.vars[ld.Name] = e.evalExpr(penv, ld.E)
+			}
+			// heap frame: a pointer parameter not listed under `mutates` still points to what it pointed to at entry
+			// (call sites rely on this: they keep the pointee as it was)
+			for _, hs := range heapIn {
+				now := o.St.heap[hs.cell.ID]
+				if now == hs.val {
+					continue
+				}
+				g := "false"
+				func() {
+					defer func() {
+						if r := recover(); r != nil {
+							if _, ok := r.(*Unsupported); !ok {
+								panic(r)
+							}
+						}
+					}()
+					g = e.valEq(o.St, now, hs.val)
+				}()
+				e.oblige(o.St, name+"#frame.heap."+hs.name, "frame", g, "the object parameter "+hs.name+" points to is unchanged on return (it is not listed under `mutates`)", fc.Props)
+			}
+			for i, rn := range fc.Results {
+				if p := fc.Dyn["alias:"+rn]; p != "" && i < len(o.Results) {
+					// `alias result = param`: the returned pointer is nil or the parameter itself
+					g := smtOr(e.isNilTerm(o.St, o.Results[i]), e.valEq(o.St, o.Results[i], entryVars[p]))
+					e.oblige(o.St, name+"#alias."+rn, "ensures", g, "alias "+rn+" = "+p+": the returned pointer is nil or the parameter itself", fc.Props)
+				}
 			}
 			for _, en := range fc.Ensures {
 				if en.Known == "trusted" {
@@ -500,7 +549,7 @@ func (e *Engine) lemmaCall(st *State, env *Env, l *Lemma, s LemmaStep, idx int) 
 		if usesCallLog(en.E) {
 			continue
 		}
-		st.assume(e.evalBool(cenv, en.E))
+		e.assumeClause(st, cenv, en.E, en.Src, fc.Target, fc.Props)
 	}
 	for i, rn := range s.Rets {
 		if i < len(rs) {
@@ -582,7 +631,7 @@ func (e *Engine) Discharge(par int) {
 				cm := coverLock(o.Name)
 				cm.Lock()
 				defer cm.Unlock()
-				if coverAttempt(o.Name) > coverTries {
+				if coverUndecided(o.Name) >= coverTries {
 					o.Status = "skipped"
 					return
 				}
@@ -620,6 +669,8 @@ func (e *Engine) Discharge(par int) {
 						e.mu.Lock()
 						e.coverDone[o.Name] = true
 						e.mu.Unlock()
+					} else if o.Status == "undischarged" {
+						coverAttempt(o.Name) // only undecided attempts count against the budget: refuted paths are cheap
 					}
 				}()
 			}
